@@ -5,11 +5,13 @@ package main
 // projected model, the recorded locations and layout-variant digests.
 
 import (
+	"bytes"
 	"crypto/sha256"
 	"encoding/hex"
 	"encoding/json"
 	"fmt"
 	"io"
+	"regexp"
 	"time"
 
 	"github.com/anz-bank/sysl/pkg/parse"
@@ -32,7 +34,11 @@ type feScenario struct {
 	Variants int           `json:"variants"` // number of extra layouts to compile and compare (C03)
 	Joined   bool          `json:"joined"`   // also compile the joined form (C04)
 	Text     bool          `json:"text"`     // include the rendered text in the begin event
+	Lint     bool          `json:"lint"`     // record the linter's warnings about calls (beyond the listed properties)
 }
+
+// lint <file:line:col>: Application|Endpoint|Method '<x>' does not exist for call '<App> <- <endpoint>'
+var reLint = regexp.MustCompile(`lint \S+: (Application|Endpoint|Method) '([^']*)' does not exist for call '(.*?) <- ([^'\\]*)'`)
 
 type compileResult struct {
 	m     *sysl.Module
@@ -105,7 +111,15 @@ func runOneFrontend(sc feScenario) []tr.Ev {
 	for _, d := range res.Decls {
 		emit(tr.Ev{"e": "decl", "d": d})
 	}
+	var lintLog bytes.Buffer
+	if sc.Lint {
+		logrus.SetOutput(&lintLog)
+		logrus.SetFormatter(&logrus.TextFormatter{DisableColors: true, DisableTimestamp: true})
+	}
 	cr := compileFiles(res.Files, "main.sysl")
+	if sc.Lint {
+		logrus.SetOutput(io.Discard)
+	}
 	if cr.panic != "" {
 		emit(tr.Ev{"e": "panic", "msg": cr.panic})
 		return evs
@@ -117,6 +131,13 @@ func runOneFrontend(sc feScenario) []tr.Ev {
 	p := project.Module(cr.m, project.Options{Locs: true})
 	emit(tr.Ev{"e": "state", "facts": factsJSON(p.Facts)})
 	emit(tr.Ev{"e": "locs", "facts": factsJSON(p.Locs)})
+	if sc.Lint {
+		ws := [][]string{}
+		for _, mm := range reLint.FindAllStringSubmatch(lintLog.String(), -1) {
+			ws = append(ws, []string{mm[1], mm[3], mm[4]})
+		}
+		emit(tr.Ev{"e": "lint", "warnings": ws})
+	}
 	base := digestNoLoc(cr.m)
 	// layout variants of the same declarations (C03)
 	for v := 1; v <= sc.Variants; v++ {
